@@ -13,8 +13,9 @@ PROP = dict(
          "the chosen ids; the go.select.rule line of the same slice names the first configuration that breaks the "
          "rule); plus sampled configurations of 1..8 members with arbitrary heads near a random base (incl. the "
          "uint32 boundary), negative durations, an unknown strategy. wait protocol: scripted scenarios (k<=5 waiters "
-         "x m head updates on 1..3 connections x refreshes that switch the best connection x cancellations x real "
-         "120 ms timers) on the real goroutines, observed after every step; adversarial schedules forced through "
+         "(WaitMasterchainSeqno and the wait inside BestMasterchainClient) x m head updates on 1..3 connections x "
+         "refreshes that switch the best connection x cancellations x real 120 ms timers x waiters held at the entry "
+         "of their select while heads arrive) on the real goroutines, observed after every step; adversarial schedules forced through "
          "ctx.Done()/ID()/MasterHead() gates. non-trivial = distinct grid slice, distinct sampled configuration or "
          "distinct scenario script",
     trusted_base=[
